@@ -2,6 +2,7 @@
   C12 — clients hand every received message to the application once, in order.
 -/
 import Hpfeeds.Lemmas.AioClient
+import Hpfeeds.Lemmas.BlkSession
 namespace Hpfeeds.C12
 open Hpfeeds Extracted
 
@@ -35,4 +36,29 @@ example : (run exCfg [.read, .accept, .data (exInfo ++ (exPub 1).take 3), .data 
     [([97],[99],[1]), ([97],[99],[2])] := by decide +kernel
 
 end Aio
+/-! ## blocking thread session: read() of the session -/
+namespace Blk
+open Hpfeeds.BlkSession
+
+/-- After ANY event sequence: what read() has returned so far, followed by what is still in read_queue, is
+    exactly the OP_PUBLISH frames dispatched so far, over all connections, in order, once each, fields as
+    decoded. -/
+theorem handed_in_order (cfg : Cfg) (es : List Ev) :
+    (run cfg es).1.handed ++ (run cfg es).1.rq = (run cfg es).1.allProcessed.filterMap pubOf := by
+  rw [← (run_inv cfg es).r.fifo, (run_inv cfg es).r.pubs]
+
+/-- The frames dispatched on the current connection are exactly the frames contained in the bytes recv()
+    returned on it (any chunking: recv(1024) slices included): re-encoded and followed by the unpacker's
+    buffered rest they ARE those bytes. -/
+theorem frames_are_the_bytes (cfg : Cfg) (es : List Ev) :
+    (run cfg es).1.inbound = (run cfg es).1.processed.flatMap enc ++ (run cfg es).1.ubuf :=
+  (run_inv cfg es).b.bytes
+
+def exCfg : Cfg := { ident := [109], secret := [115], H := id }
+def exInfo : Bytes := [0,0,0,12,1,2,104,112,9,8,7,6]
+def exPub (x : UInt8) : Bytes := [0,0,0,10,3,1,97,1,99,x]
+example : (run exCfg [.connect, .inb (exInfo ++ (exPub 1).take 3), .sel .again, .inb ((exPub 1).drop 3 ++ exPub 2),
+    .read, .sel .again, .read, .read]).1.handed = [([97],[99],[1]), ([97],[99],[2])] := by decide +kernel
+
+end Blk
 end Hpfeeds.C12
